@@ -112,3 +112,7 @@ fn test_market_agent_macro() {
     assert!(env.get_market().bid_vols() == [20, 20]);
     assert!(env.get_market().bid_asks() == [(20, 40), (60, 80)]);
 }
+
+#[cfg(any(kani, verif_replay))]
+#[path = "/verif/harness/macro_proofs.rs"]
+mod verif_proofs;
